@@ -5,6 +5,10 @@ set -u
 patch=$(readlink -f "$1"); prop=$2; tier=${3:-quick}
 d=$(mktemp -d ${TMPDIR:-/tmp}/gnmiverif.XXXXXX)
 rsync -a --exclude .git /repo/ "$d/"
+if ! (cd "$d" && patch -p1 -s --dry-run < "$patch" >/dev/null 2>&1); then
+  rb="$(dirname "$patch")/patch.rebased.diff"
+  if [ -f "$rb" ]; then patch="$rb"; fi
+fi
 if ! (cd "$d" && patch -p1 -s < "$patch"); then echo "PATCH-FAILED $patch"; rm -rf "$d"; exit 3; fi
 /verif/bin/gnmiverif -repo "$d" -verif "$d/.verif-out" -property "$prop" -tier "$tier" -noselftest | sed "s#$d/##g"
 rc=${PIPESTATUS[0]}
